@@ -29,7 +29,7 @@ def run(c):
         rc, out = c.go_run(binary, ["-mode=corpus", f"-n={NCORPUS}"])
         c.harness_ok(rc, out, "verif-c02 corpus")
         c.correspond(out, drv, label="corpus")
-        rc, out = c.go_run(binary, [f"-n={c.n(1200, 50000)}"], timeout=1500)
+        rc, out = c.go_run(binary, [f"-n={c.n(1000, 50000)}"], timeout=1500)
         c.harness_ok(rc, out, "verif-c02")
         c.correspond(out, drv)
 
